@@ -128,9 +128,12 @@ class Enumerator:
     def loop(self, s, body, orelse):
         r = []
         else_paths = self.block(orelse) if orelse else [([], 'fall')]
-        # zero iterations
-        for ei, eo in else_paths:
-            r.append(([('loop', s, 0)] + ei, eo))
+        # zero iterations (impossible over a non-empty literal sequence)
+        literal = isinstance(s, ast.For) and isinstance(
+            s.iter, (ast.Tuple, ast.List)) and len(s.iter.elts) > 0
+        if not literal:
+            for ei, eo in else_paths:
+                r.append(([('loop', s, 0)] + ei, eo))
         body_paths = self.block(body)
         has_break = any(o == 'break' for _, o in body_paths)
         iters = [body_paths]
